@@ -257,7 +257,10 @@ func c03r3(r *R) {
 			}
 		case *ssa.UnOp:
 			if x.Op.String() == "<-" && reaches(ins, ins) {
-				recvs++
+				// the receive loop must run once per copier
+				if guardedBy(ins.Block(), func(g string) bool { return strings.HasSuffix(g, "< builtin len($1))") && !strings.HasPrefix(g, "!") }) {
+					recvs++
+				}
 			}
 		case *ssa.MakeChan:
 			mk = x
